@@ -84,6 +84,11 @@ Proof. intros H r s' o E F. apply try_inv in E. destruct E as (r0 & E & ->). eau
 Lemma wp_swallow (m : M unit) (Q : res unit -> G -> state -> Prop) g s : wp m (fun _ => Q (Ok tt)) g s -> wp (swallow m) Q g s.
 Proof. intros H r s' o E F. apply swallow_inv in E. destruct E as (r0 & E & ->). eauto. Qed.
 
+(* a raw computation that only emits a given list of outputs (flush_pend) *)
+Lemma wp_emits (l : list output) (Q : res unit -> G -> state -> Prop) g s :
+  (exists g', gouts g l = Some g' /\ Q (Ok tt) g' s) -> wp (fun s' : state => (Ok tt, s', l)) Q g s.
+Proof. intros (g' & Hg & H) r s' o E _. inversion E; subst. eauto. Qed.
+
 (* use of an already proved specification [H : wp m Q0 g s] for a call *)
 Lemma wp_call {A} (m : M A) (Q0 Q : res A -> G -> state -> Prop) g s :
   wp m Q0 g s -> (forall r g' s', Q0 r g' s' -> Q r g' s') -> wp m Q g s.
